@@ -4,3 +4,4 @@ import XzVerif.Props.C17
 #print axioms Props.C17.C17_full_chunk_carries_3000
 #print axioms Props.C17.C17_expansion_accounting
 #print axioms Props.C17.C17_lzma2_no_expansion
+#print axioms Props.C17.C17_lzma2_no_expansion_hashtable4
